@@ -16,7 +16,7 @@
                 addresses (iter_unkeyed / keyed into_iter); 0 try_read, 2 try_get, 3 try_with,
                 4 track + untracked read, 5 track_field + reader, 6 / 7 OptionStoreExt::map / invert,
                 8 Signal::from(subfield), 9 / 10 iterate in reverse / from both ends (reported in
-                collection order: as 1), 11 enum bool accessors
+                collection order: as 1), 11 / 12 / 13 the enum's bool accessor of variant 0 / 1 / 2
       kinds   : per reader, the subscriber: 0 Effect, 1 ImmediateEffect, 2 RenderEffect,
                 3 Memo read by an Effect, 4 Effect::new_isomorphic
       kcs     : per step, the two visiting orders of FieldKeys::update (hash order in the
